@@ -974,7 +974,12 @@ where
   fn poll(mut self: Pin<&mut Self>, cx: &mut Context<'_>) -> Poll<Self::Output> {
     match self.writer_command.take() {
       Some(wc) => {
-        match self.writer.cc_upload.try_send(wc) {
+        // Lock the waker slot already before trying to send, so that the
+        // RTPS Writer cannot make space and signal it between our failed
+        // send and storing the waker. It signals only after taking this lock.
+        let writer = self.writer;
+        let mut cc_upload_waker = writer.cc_upload_waker.lock().unwrap();
+        match writer.cc_upload.try_send(wc) {
           Ok(()) => {
             self.writer.refresh_manual_liveliness();
             Poll::Ready(Ok(SampleIdentity {
@@ -983,7 +988,7 @@ where
             }))
           }
           Err(TrySendError::Full(wc)) => {
-            *self.writer.cc_upload_waker.lock().unwrap() = Some(cx.waker().clone());
+            *cc_upload_waker = Some(cx.waker().clone());
             if Instant::now() < self.timeout_instant {
               // Put our command back
               self.writer_command = Some(wc);
